@@ -433,7 +433,8 @@ class Verifier:
     def oblige_clause(self, I, ctx, kind, lbl, ex, sframe, extra, fr):
         node = self.parse_clause(ex)
         # cover: antecedent of implication-shaped clauses must be satisfiable on some path
-        if isinstance(node, ast.Call) and isinstance(node.func, ast.Name) and node.func.id == "implies":
+        if isinstance(node, ast.Call) and isinstance(node.func, ast.Name) and node.func.id == "implies" \
+                and kind in ("post", "xpost", "always"):
             key = f"{kind}[{lbl}]"
             if not fr.covers.get(key):
                 try:
